@@ -107,7 +107,7 @@ func (g *bindGen) inputExpr(p *stmtPlan) string {
 		return "$" + n + "[:]"
 	default:
 		// a form applied to the wrong kind
-		n := r.pick(append(append([]string{}, goodSlices...), goodMaps...))
+		n := r.pick(append(append(append([]string{}, goodSlices...), goodMaps...), "Person", "Address", "Omit"))
 		p.use(n, true)
 		if r.chance(1, 2) {
 			return "$" + n + ".x"
@@ -135,6 +135,9 @@ func (g *bindGen) insertExpr(p *stmtPlan) string {
 				srcs = append(srcs, "$"+t+"."+g.tagOf(t))
 			default:
 				t := r.pick(goodMaps)
+				if r.chance(1, 10) {
+					t = r.pick(goodSlices) // a slice where a struct or map is expected
+				}
 				p.use(t, true)
 				if r.chance(1, 6) {
 					srcs = append(srcs, "$"+t+".*")
@@ -246,6 +249,13 @@ func (g *bindGen) outputExpr(p *stmtPlan) string {
 		return "&" + t + "." + g.tagOf(t)
 	case 3:
 		t := r.pick(goodMaps)
+		if r.chance(1, 10) {
+			t = r.pick(goodSlices) // a slice as an output destination
+			p.use(t, false)
+			if r.chance(1, 2) {
+				return "&" + t + ".*"
+			}
+		}
 		p.use(t, false)
 		return "&" + t + "." + r.pick(mapKeys)
 	case 4:
